@@ -96,6 +96,16 @@ CHECKS.update({
    note="std::bad_alloc on hostile lengths counts as refusal; input reaches fopen() through a memfd path"),
 })
 
+CHECKS.update({
+ "C18": dict(level="exploration", engine="rapidcheck", design="3/C18",
+   technique="rapidcheck-generated expression-tree specifications built several times in one mp::ExprFactory (independent copies, single-point mutants, "
+             "mutant chains, unrelated trees); mp::Equal and std::hash<mp::Expr> on all ordered pairs against the verdict computed on the specifications",
+   text="About 100 short rapidcheck campaigns per quick run over all numeric and logical kinds (calls with numeric and string arguments, PL terms, counts, "
+        "iterated and pairwise kinds, NaN/Inf/+-0 constants) check reflexivity, symmetry, transitivity, Equal <=> identical specification, and Equal => equal hash; "
+        "every 4th campaign adds the symbolic kinds for memory safety.",
+   note="depth <= 5 plus one depth-300 chain; +0 vs -0 constants: either verdict accepted; symbolic kinds may throw UnsupportedError"),
+})
+
 NOT_APPLICABLE = []
 
 def main():
